@@ -309,10 +309,54 @@ fn e1(ctx: &Ctx, res: &mut PartResult, pb: usize, two_pushers: bool, two_consume
     vsched::explore(&scn, &Cfg { max_bound: pb, horizon: 5000 }, ctx, res);
 }
 
+/// The other side of the RNG seam. The E3 tree replaces `fastrand(upper)` by the enumeration of all its answers with
+/// weight 1/upper each; that is only the retention probability of the real reservoir if the real generator's answers are
+/// not the same on every thread. This part does not enumerate anything: it runs the same overfull fill on fresh threads
+/// (whose thread-local generator is initialised by that very fill) with the seam switched off and requires that the
+/// retained positions are not identical everywhere. With a generator seeded per thread from the OS all 48 threads
+/// agreeing has probability < 28^-47 (capacity 2 of 8: 28 possible sets) — a false alarm is out of the question —, while
+/// a constant or otherwise shared seed makes them agree always.
+fn rng_part(res: &mut PartResult) {
+    res.engine = "assumption check behind the E3 RNG seam: the real per-thread generator on fresh threads (not an enumeration)".into();
+    let mut states = vseq::States::new();
+    for (cap, n) in [(2usize, 8usize), (1, 6), (3, 9)] {
+        let sets: Vec<Vec<u64>> = (0..48)
+            .map(|_| {
+                std::thread::spawn(move || {
+                    let r = AtomicSamplingReservoir::new(cap);
+                    for i in 0..n {
+                        r.push((i + 1) as f64);
+                    }
+                    let mut got: Vec<u64> = Vec::new();
+                    r.consume(|d| got = d.map(|x| x as u64).collect());
+                    got.sort_unstable();
+                    got
+                })
+                .join()
+                .unwrap()
+            })
+            .collect();
+        res.executions += sets.len() as u64;
+        res.transitions += (sets.len() * (n + 1)) as u64;
+        let distinct: std::collections::BTreeSet<&Vec<u64>> = sets.iter().collect();
+        states.add(&(cap, n, distinct.len().min(2)));
+        if sets.iter().any(|s| s.len() != cap || s.iter().any(|v| *v < 1 || *v > n as u64)) {
+            res.violation("drain-yields-value-not-pushed", format!("capacity {} of {} pushes on a fresh thread: retained {:?}", cap, n, sets[0]), json!({"cap": cap, "n": n}));
+        }
+        if distinct.len() < 2 {
+            res.violation("replacement-choices-identical-on-every-fresh-thread", format!("capacity {} of {} pushes on 48 fresh threads: every thread retained the same positions {:?}; the replacement choices are not independent between threads, so over trials on fresh threads a position is retained with probability 0 or 1 instead of {}/{}", cap, n, sets[0], cap, n), json!({"cap": cap, "n": n}));
+        }
+    }
+    res.states = states.len();
+    res.distinct_outcomes = states.len();
+    res.sample(json!({"capacity": 2, "pushes": 8, "threads": 48, "expected": "at least two different retained sets"}));
+}
+
 fn parts(ctx: &Ctx) -> Vec<PartSpec> {
     if ctx.quick() {
         vec![
             PartSpec::new("e3-tree-cap0-3", json!({"caps": [0, 1, 2, 3], "extra": 3})),
+            PartSpec::new("rng-per-thread", json!({"rng": true})),
             PartSpec::new("e1-push-vs-consume-pb2", json!({"e1": 2, "two": false})),
             PartSpec::new("e1-2pushers-vs-consume-pb2", json!({"e1": 2, "two": true})),
             PartSpec::new("e1-push-vs-2consumers-pb2", json!({"e1": 2, "two": false, "cons2": true})),
@@ -321,6 +365,7 @@ fn parts(ctx: &Ctx) -> Vec<PartSpec> {
     } else {
         vec![
             PartSpec::new("e3-tree-cap0-3", json!({"caps": [0, 1, 2, 3], "extra": 6})).budget(1500.0),
+            PartSpec::new("rng-per-thread", json!({"rng": true})),
             PartSpec::new("e3-tree-cap4", json!({"caps": [4], "extra": 5})).budget(1500.0),
             PartSpec::new("e3-tree-cap5", json!({"caps": [5], "extra": 5})).budget(1500.0),
             PartSpec::new("e3-tree-cap6", json!({"caps": [6], "extra": 5})).budget(1500.0),
@@ -336,7 +381,9 @@ fn parts(ctx: &Ctx) -> Vec<PartSpec> {
 
 fn run(ctx: &Ctx, spec: &PartSpec) -> PartResult {
     let mut res = PartResult::new(&spec.name, "");
-    if let Some(pb) = spec.arg["e1"].as_u64() {
+    if spec.arg["rng"].as_bool() == Some(true) {
+        rng_part(&mut res);
+    } else if let Some(pb) = spec.arg["e1"].as_u64() {
         e1(ctx, &mut res, pb as usize, spec.arg["two"].as_bool().unwrap_or(false), spec.arg["cons2"].as_bool().unwrap_or(false), spec.arg["cap"].as_u64().unwrap_or(4) as usize);
     } else {
         let caps: Vec<usize> = spec.arg["caps"].as_array().unwrap().iter().map(|x| x.as_u64().unwrap() as usize).collect();
@@ -350,7 +397,7 @@ fn main() {
         prop: "C16",
         level: "model_checking",
         rule: "E3: for every capacity in the list, every push count 0..=cap+extra in cycle 1 and {0,1,cap+1} in cycle 2, the complete tree of answers of every fastrand(upper) call (RNG seam) is enumerated on the real AtomicSamplingReservoir; every leaf is checked (yield subset/count/sample rate/fresh start) and retention probabilities are summed with exact rational weights; E1: all SC interleavings (pb-bounded) of pushes with consumes (one or two pushing threads, one or two consuming threads); distinct = distinct (configuration, yields) leaves / outcomes",
-        assumptions: &["the RNG is uniform over 0..upper (the seam replaces it by enumeration of all answers with weight 1/upper)", "E1: sequential consistency (the reservoir uses Relaxed orderings; weak-memory effects are not explored)"],
+        assumptions: &["the RNG is uniform over 0..upper (the seam replaces it by enumeration of all answers with weight 1/upper); the part rng-per-thread checks, outside the enumeration, that the real generator does not give every fresh thread the same answers", "E1: sequential consistency (the reservoir uses Relaxed orderings; weak-memory effects are not explored)"],
         parts,
         run,
     });
